@@ -35,6 +35,22 @@ CLAIMED = {
          "proton = identity; every kernel is rotated exactly once; the target table parsed from compatibility.py equals the documented one and unknown names are rejected. "
          "Target runs are compared with rotated proton runs on every run.",
          "Trusted: Coq kernel+vm_compute; tools/tables.py; harness; model tied by sampled correspondence (the aliasing defect fixed in b62348b2 was found by it).", "4 C12"),
+ "C06": ("Coq theorems (case analysis, Qle reasoning) on a hand-written model of update_fns / Atlas walls / nf_default over rationals + infinity; "
+         "update_fns tied exhaustively, nf_default by correspondence at, one ulp below and above every wall",
+         "Proof: nf_default = 3 + #{heavy quarks with matching scale <= Q2} for every rational Q2 >= 0 (active exactly at the threshold, inactive below), monotone; "
+         "in FFNS/FFN0/FONLL the walls produced by update_fns give nf = NfFF at every Q2 for any masses/ratios; which quarks are massive per scheme. "
+         "Multi-point NNLO runs across thresholds check that the beta0 in the (2,0,1,0) tensors is beta0(nf) and that results depend on thresholds only through the count.",
+         "Trusted: Coq kernel+vm_compute; harness; np.digitize/eko Atlas modelled (counting), not verified; that the scale-variation betas use this nf is shown "
+         "on real runs by the patrol here and belongs to the C05 model.", "4 C06"),
+ "C11": ("Coq theorems (field; list induction for the dict algebra) on hand-written models of ESFResult arithmetic and exs.py; models tied by differential correspondence",
+         "Proof: every entry of every order of a cross section is c1 F2 + c2 FL + c3 xF3 (third SF skipped iff c3 = 0); for all ten kinds the coefficients equal the documented "
+         "(N, -N yL/y+, s N y-/y+) for any x, y, Q2, GF, MW, hadron mass; ESFResult +,-,* are entry-wise linear. Real runs compare XS tensors with the SF tensors of the same run.",
+         "Trusted: Coq kernel+vm_compute; harness; spec_of in XS.v is the specification (docs intro.rst; XSFPFCC's documented 8 pi read as 4 pi); pi, sqrt, unit constant are parameters.", "4 C11"),
+ "C17": ("Coq theorems (ring, list induction, permutation) on a hand-written model of ESFResult.apply_pdf and of the alpha_s dispatch; tied by differential correspondence "
+         "(eko Couplings.a_s wrapped to record scale and nf)",
+         "Proof: the prediction is the sum over stored orders of a_s^k alpha^l LR^i LF^j <operator, pdfs> (power 0 special-casing harmless), linear in the PDF, independent of "
+         "rows of missing flavours and of key order; alpha_s is asked with nf = NfFF (fixed flavour) or 3 + #{(m k)^2 <= muR^2} (ZM-VFNS). Real outputs are contracted independently.",
+         "Trusted: Coq kernel+vm_compute; harness; eko's Couplings running itself is outside; logs enter as the code's floats.", "4 C17"),
 }
 PENDING = "check not built yet in this snapshot (machinery under construction, see DESIGN.md section 4)"
 
